@@ -393,6 +393,89 @@ func runC03(c *Ctx) {
 				}
 			}
 		}
+		// the same read off a result that is put together at the end (anchors chosen first, one
+		// concatenation): every alternative of start + middle + end
+		if !okStartURL || !okStart || !okEnd {
+			var alts func(e *E, depth int) [][]*E
+			alts = func(e *E, depth int) [][]*E {
+				switch {
+				case depth > 12:
+					return [][]*E{{e}}
+				case e.Op == "ite":
+					return append(alts(e.Args[0], depth+1), alts(e.Args[1], depth+1)...)
+				case e.Op == "bin" && e.Aux == "+":
+					var out [][]*E
+					for _, l := range alts(e.Args[0], depth+1) {
+						for _, r := range alts(e.Args[1], depth+1) {
+							if len(out) > 256 {
+								return out
+							}
+							out = append(out, append(append([]*E{}, l...), r...))
+						}
+					}
+					return out
+				}
+				return [][]*E{{e}}
+			}
+			// offset of a (nested) slice from the start of the string it is ultimately cut from
+			absLow := func(x *E) (int64, bool) {
+				var lo int64
+				for x.Op == "slice" {
+					if x.Args[1] != nil {
+						v, ok := x.Args[1].IntVal()
+						if !ok {
+							return 0, false
+						}
+						lo += v
+					}
+					x = x.Args[0]
+				}
+				return lo, true
+			}
+			cutsOneAtEnd := func(x *E) bool {
+				for x.Op == "slice" {
+					if x.Args[2] != nil {
+						want := u.Bin(token.SUB, u.Len(x.Args[0]), u.Int(1), types.Typ[types.Int])
+						if same, _ := semEqual(u, x.Args[2], want); same {
+							return true
+						}
+						return false
+					}
+					x = x.Args[0]
+				}
+				return false
+			}
+			for _, leaf := range u.Collect(res, func(x *E) bool { return x.Op == "bin" && x.Aux == "+" }) {
+				for _, parts := range alts(leaf, 0) {
+					var mids []*E
+					first, last := "", ""
+					for i, pe := range parts {
+						if sv, ok := pe.StrVal(); ok {
+							if len(mids) == 0 && i == 0 {
+								first = sv
+							} else if i == len(parts)-1 {
+								last = sv
+							}
+							continue
+						}
+						mids = append(mids, pe)
+					}
+					if len(mids) != 1 || mids[0].Op != "slice" {
+						continue
+					}
+					lo, okLo := absLow(mids[0])
+					if okLo && first == K["RegexStartURL"] && lo == int64(len(K["MaskStartURL"])) {
+						okStartURL = true
+					}
+					if okLo && first == K["RegexStartString"] && lo == int64(len(K["MaskPipe"])) {
+						okStart = true
+					}
+					if last == K["RegexEndString"] && cutsOneAtEnd(mids[0]) {
+						okEnd = true
+					}
+				}
+			}
+		}
 		c.Check(okStartURL, "C03.R4", "leading '||' becomes RegexStartURL + rest", ptr.Pos(), "RegexStartURL + regex[len(\"||\"):]", "the leading || is not replaced by the start-of-address expression with exactly the two pipes removed")
 		c.Check(okStart, "C03.R4", "leading '|' becomes RegexStartString + rest", ptr.Pos(), "RegexStartString + regex[len(\"|\"):]", "the leading | is not replaced by ^ with exactly one pipe removed")
 		c.Check(okEnd, "C03.R4", "trailing '|' becomes rest + RegexEndString", ptr.Pos(), "regex[:len-1] + RegexEndString", "the trailing | is not replaced by $ with exactly one pipe removed")
